@@ -256,6 +256,9 @@ func c11Query(r *engine.Run, t *c11Tree, q rtree.Box, allK bool) {
 			_ = t.tree.RangeSearch(q, func(id int) error { wantRange = append(wantRange, id); return nil })
 			cb := func(id int) error {
 				outer = append(outer, id+t.off)
+				if len(outer) > 4*len(t.boxes)+16 {
+					return errBoom // a disturbed search must not be allowed to loop forever
+				}
 				if len(outer) == k+1 {
 					if n, f := t.tree.Nearest(q); n != wantNearest || f != wantFound {
 						nestedBad = fmt.Sprint("nested Nearest ", n, f)
